@@ -130,6 +130,24 @@ pub fn oracle(input: &str, st: &mut Stats) -> Verdict {
                     }
                 }
             }
+            // the view the bindings give of the same file: the same categories and names, and every name
+            // looks up the category it was written under
+            match guard(|| cooklang_bindings::parse_aisle_config(input.to_string())) {
+                Err(p) => vbail!("c11.panic.ffi", "the bindings' parse_aisle_config panicked on a file aisle::parse accepts: {p}; input {input:?}"),
+                Ok(ffi) => {
+                    let core_view: Vec<(String, Vec<Vec<String>>)> = conf.categories.iter().map(|c| (c.name.to_string(), c.ingredients.iter().map(|i| i.names.iter().map(|n| n.to_string()).collect()).collect())).collect();
+                    let ffi_view: Vec<(String, Vec<Vec<String>>)> = ffi.categories.iter().map(|c| (c.name.clone(), c.ingredients.iter().map(|i| std::iter::once(i.name.clone()).chain(i.aliases.iter().cloned()).collect()).collect())).collect();
+                    vensure!(core_view == ffi_view, "c11.ffi-view", "the bindings list {ffi_view:?}, aisle::parse {core_view:?}; input {input:?}");
+                    for c in &conf.categories {
+                        for i in &c.ingredients {
+                            for n in &i.names {
+                                let got = ffi.category_for(n.to_string());
+                                vensure!(got.as_deref() == Some(c.name), "c11.lookup", "the bindings' category_for({n:?}) gives {got:?}, the name is written under {:?}; input {input:?}", c.name);
+                            }
+                        }
+                    }
+                }
+            }
             // write -> parse
             let mut buf = vec![];
             match guard(|| aisle::write(conf, &mut buf)) {
@@ -249,10 +267,10 @@ fn structured() -> impl Strategy<Value = Case> {
     let name = prop_oneof![
         6 => proptest::sample::select(vec!["milk", "tuna", "chunk light tuna", "salt", "sea salt", "Öl", "a", "b", "x y", "", "dairy", "[x", "y]",
             // the name `categorize` uses for what is in no category; characters that look like the separator
-            "other", "Other", "x｜y", "soy｜sauce", "y", "a¦b", "a│b", "｜", "/", "a/b", "http://x"]).prop_map(|s| s.to_string()),
+            "other", "Other", "Milk", "TUNA", "öl", "x｜y", "soy｜sauce", "y", "a¦b", "a│b", "｜", "/", "a/b", "http://x"]).prop_map(|s| s.to_string()),
         1 => "[a-z]{1,4}".prop_map(|s| s),
         // long names (lengths around the powers of two up to 300 bytes), few distinct ones so that they collide
-        1 => (proptest::sample::select(vec![31usize, 32, 33, 63, 64, 65, 127, 128, 129, 255, 256, 300]), proptest::sample::select(vec!["x", "é", "ab "])).prop_map(|(n, unit)| {
+        1 => (proptest::sample::select(vec![31usize, 32, 33, 63, 64, 65, 127, 128, 129, 255, 256, 300]), proptest::sample::select(vec!["x", "é", "ab ", "日", "x日", "añ🧄"])).prop_map(|(n, unit)| {
             let mut s = String::new();
             while s.len() < n {
                 s.push_str(unit);
